@@ -3,12 +3,16 @@ C05 — property theorems: discipline caches are transparent.
 Only property theorems (and the few definitions needed to state them) live here; helper lemmas
 are in `Lemmas/C05.lean`, `Lemmas/C05Index.lean` and `Lemmas/C05Hist.lean`.
 
-Conventions: `cfg.cow = true`, `cfg.coh = true` say that the cache stores copies and hands out
-copies (true for every cache kind under `Policy.copy`, the repaired code; always true for the
-shared-memory and HDF5 caches). `reach cfg d ops` is the state after an arbitrary history `ops`
-(executions, linearizations, in-place modifications of caller arrays, kept output arrays, HDF5
-reopen, clear), `d` is an arbitrary body (`run`, `jacf` are arbitrary functions) and the hash of
-each call is an arbitrary number carried by the operation.
+Conventions: `cfg.cow = true` says that the cache stores private copies of the data the discipline
+was *called with* (nothing kept by reference, the inputs of an entry copied before the body runs),
+`cfg.coh = true` that a hit hands out copies (both true for every cache kind under `Policy.copy`, the
+repaired code). `reach cfg d ops` is the state after an arbitrary history `ops` (executions,
+linearizations, in-place modifications of caller arrays, kept output arrays, HDF5 reopen, clear),
+`d` is an arbitrary body: `run`, `jacf` are arbitrary functions of the values the input arrays hold
+when the body starts, and the body may **update its input arrays in place** (`d.wr` arbitrary) and
+**return an input array itself as an output** (`d.aliasOf` arbitrary) — every theorem below that
+quantifies over `d` covers such bodies. The hash of each call is an arbitrary number carried by the
+operation.
 -/
 import GemseoVerif.Lemmas.C05Hist
 import Mathlib.Analysis.Real.Sqrt
@@ -281,6 +285,71 @@ theorem reopen_same_entries (hf : Vals → Nat) (cfg : Cfg) (d : Disc) (hcow : c
       have := key f.reopen f hI' hI rfl i h2
       rw [h1] at this; cases this
 
+/-! ### Bodies that update their input arrays in place: the entry is keyed by the pre-run values -/
+
+/-- **entry_input_is_pre_run_value** (full caches). After every history, when an execution runs the
+    body, the cache holds an entry whose inputs are the values `xs` the input arrays had when the
+    discipline was **called** (before the run) and whose outputs are the outputs of the body at these
+    values — whatever the body wrote into its input arrays during the run (`d.wr`, `d.aliasOf`
+    arbitrary: e.g. a self-coupled state advanced in place and returned as the same array). -/
+theorem entry_input_is_pre_run_value (cfg : Cfg) (d : Disc) (hk : cfg.kind.isFull = true)
+    (hcow : cfg.cow = true) (hcoh : cfg.coh = true) (ops : List Op) (args : List (Name × Nat))
+    (h : Nat) (xs : List (Arr × Option Nat)) (hp : prepare cfg (reach cfg d ops) args = some xs)
+    (hran : (step cfg d (reach cfg d ops) (.exec args h)).1.nRun ≠ (reach cfg d ops).nRun) :
+    ∃ i e oc, (step cfg d (reach cfg d ops) (.exec args h)).1.full.entry? i = some e ∧
+      vals e.inputs = xs.map (·.1) ∧ e.outputs = some oc ∧ vals oc = d.run (xs.map (·.1)) := by
+  have hinv : Inv d (reach cfg d ops) := reachFrom_inv ops {} hcow hcoh (inv_init d)
+  generalize reach cfg d ops = st at hinv hp hran
+  simp only [step, hp] at hran ⊢
+  rcases execute_cases (cfg := cfg) (d := d) (st := st) (xs := xs) (h := h) hcoh with hn | hm
+  · exact absurd hn hran
+  · rw [hm]
+    exact execMiss_entry hk hcow (hinv.of_eq rfl rfl rfl rfl) rfl
+
+/-- **simple_entry_input_is_pre_run_value** (`SimpleCache`). Same statement for the single entry:
+    after an execution that runs the body the stored inputs are the call-time values and the stored
+    outputs (if any) are the body's outputs at these values. -/
+theorem simple_entry_input_is_pre_run_value (cfg : Cfg) (d : Disc) (hk : cfg.kind = .simple)
+    (hcow : cfg.cow = true) (hcoh : cfg.coh = true) (ops : List Op) (args : List (Name × Nat))
+    (h : Nat) (xs : List (Arr × Option Nat)) (hp : prepare cfg (reach cfg d ops) args = some xs)
+    (hran : (step cfg d (reach cfg d ops) (.exec args h)).1.nRun ≠ (reach cfg d ops).nRun) :
+    vals (step cfg d (reach cfg d ops) (.exec args h)).1.simple.inputs = xs.map (·.1) ∧
+      ((step cfg d (reach cfg d ops) (.exec args h)).1.simple.outputs ≠ [] →
+        vals (step cfg d (reach cfg d ops) (.exec args h)).1.simple.outputs =
+          d.run (xs.map (·.1))) := by
+  have hinv : Inv d (reach cfg d ops) := reachFrom_inv ops {} hcow hcoh (inv_init d)
+  generalize reach cfg d ops = st at hinv hp hran
+  simp only [step, hp] at hran ⊢
+  rcases execute_cases (cfg := cfg) (d := d) (st := st) (xs := xs) (h := h) hcoh with hn | hm
+  · exact absurd hn hran
+  · rw [hm]
+    exact execMiss_simple_entry hk hcow (hinv.of_eq rfl rfl rfl rfl) rfl
+
+/-- **repeated_input_hits.** With a full cache and exact matching, whatever the hash function:
+    once the body has been run on the input values `x` (they are in the run log — the arrays that
+    held them may have been overwritten since, by the caller or by the body itself), every later
+    execution called with arrays holding `x` again is a hit: the body does not run and the outputs
+    of the body at `x` are returned. -/
+theorem repeated_input_hits (hf : Vals → Nat) (cfg : Cfg) (d : Disc)
+    (hk : cfg.kind.isFull = true) (ht : cfg.tol = 0) (hcow : cfg.cow = true)
+    (hcoh : cfg.coh = true) (hout : ∀ x, d.run x ≠ []) (ops : List Op)
+    (hops : HistHashOK hf cfg d {} ops) (hnc : Op.clear ∉ ops)
+    (args : List (Name × Nat)) (xs : List (Arr × Option Nat))
+    (hp : prepare cfg (reach cfg d ops) args = some xs)
+    (hx : xs.map (·.1) ∈ (reach cfg d ops).runLog) :
+    (step cfg d (reach cfg d ops) (.exec args (hf (xs.map (·.1))))).1.nRun = (reach cfg d ops).nRun ∧
+    (step cfg d (reach cfg d ops) (.exec args (hf (xs.map (·.1))))).2 =
+      .data (d.run (xs.map (·.1))) := by
+  have h0 : RunInv hf d {} :=
+    ⟨inv_init d, idxInv_empty hf, (fun x hx => by cases hx), List.nodup_nil⟩
+  have hK : RunInv hf d (reach cfg d ops) :=
+    reachFrom_runInv ops {} hk ht hcow hcoh hout hops hnc h0
+  have hn : (reach cfg d ops).nRun = (reach cfg d ops).runLog.length :=
+    reachFrom_nRun ops {} hcoh rfl
+  refine ⟨?_, transparent_exact cfg d hcow hcoh ht ops args _ xs hp⟩
+  simp only [step, hp]
+  rw [execute_nRun hcoh hn, (execute_logged_hit hk ht hcoh hout rfl hK hx).1, hn]
+
 /-! ### Meaning of the square-root-free tolerance test -/
 
 /-- The test of the model is the test of the code: `‖w - x‖ ≤ t (1 + ‖x‖)` with Euclidean norms
@@ -377,7 +446,7 @@ theorem withinArr_iff (t : Rat) (x w : Arr) (ht : 0 ≤ t) (hl : x.length = w.le
 /-! ### Non-vacuity and counter-examples for the by-reference policies -/
 
 /-- A body: `y = a` (one input, one output), Jacobian block `1`. -/
-def exDisc : Disc := ⟨fun x => x, fun _ => [(("y", "a"), [[1]])]⟩
+def exDisc : Disc := { run := fun x => x, jacf := fun _ => [(("y", "a"), [[1]])] }
 
 def exCfg (kind : Kind) (tol : Rat) (pol : Policy) : Cfg :=
   { kind := kind, tol := tol, pol := pol, inNames := ["a"], defaults := [none], outNames := ["y"],
@@ -444,7 +513,7 @@ def exOps : List Op :=
 -- the hypotheses of the theorems are met by every cache kind under the copy policy
 example : (exCfg (.memory false) (1/4) Policy.copy).cow = true ∧
     (exCfg (.memory false) (1/4) Policy.copy).coh = true := by decide
-example : (exCfg .simple 0 Policy.copy).cow = true ∧ (exCfg .hdf5 0 ⟨false, false⟩).cow = true := by
+example : (exCfg .simple 0 Policy.copy).cow = true ∧ (exCfg .hdf5 0 ⟨false, false, .pre⟩).cow = true := by
   decide
 -- ... and the history is non-trivial: copy policy, the second execution is a miss and runs the body on [1]
 example : (outputs (exCfg (.memory false) (1/4) Policy.copy) exDisc {} exOps).getLast? =
@@ -458,9 +527,9 @@ example : (reach (exCfg (.memory false) 0 Policy.copy) exDisc
 /-- **Counter-example (store by reference).** With the pinned tree's policy of the non-shared
     `MemoryFullCache` (inputs and outputs kept by reference) the same history returns the outputs of
     `[0]` for the input `[1]`, which is not within the tolerance `1/4`: `transparent_tol` fails. -/
-example : (outputs (exCfg (.memory false) (1/4) ⟨false, true⟩) exDisc {} exOps).getLast? =
+example : (outputs (exCfg (.memory false) (1/4) ⟨false, true, .coupledPre⟩) exDisc {} exOps).getLast? =
     some (.data [[0]]) := by decide +kernel
-example : ¬ ∃ w ∈ (reach (exCfg (.memory false) (1/4) ⟨false, true⟩) exDisc exOps).runLog,
+example : ¬ ∃ w ∈ (reach (exCfg (.memory false) (1/4) ⟨false, true, .coupledPre⟩) exDisc exOps).runLog,
     cmp (1/4) [[1]] w = true := by decide +kernel
 
 /-- **Counter-example (hit hands out the stored array).** The caller keeps the output array of a
@@ -469,7 +538,7 @@ def exOpsHit : List Op :=
   [.new 1 [0], .exec [("a", 1)] 7, .exec [("a", 1)] 7, .keep 2 "y", .exec [("a", 2)] 7,
    .modify 2 [5], .new 3 [0], .exec [("a", 3)] 7]
 
-example : (outputs (exCfg .simple 0 ⟨true, false⟩) exDisc {} exOpsHit).getLast? =
+example : (outputs (exCfg .simple 0 ⟨true, false, .pre⟩) exDisc {} exOpsHit).getLast? =
     some (.data [[5]]) := by decide +kernel
 example : (outputs (exCfg .simple 0 Policy.copy) exDisc {} exOpsHit).getLast? =
     some (.data [[0]]) := by decide +kernel
@@ -483,5 +552,84 @@ example : ((reach (exCfg .hdf5 0 Policy.copy) exDisc
     (fixHist (fun _ => 0) (exCfg .hdf5 0 Policy.copy) exDisc {}
       [.new 1 [0], .exec [("a", 1)] 9, .new 2 [1], .exec [("a", 2)] 9, .reopen,
        .exec [("a", 1)] 9, .lin true true [("a", 2)] 9])).full.entries.length = 2) := by decide +kernel
+
+/-! ### Bodies with side effects on their input arrays: non-vacuity and counter-examples -/
+
+/-- A discipline with a state: the self-coupled `s` is advanced **in place** (`s += 1`), the updated
+    array itself is returned as the output `s`, and `y = 10 (s + 1)`. -/
+def exInc : Disc :=
+  { run := fun x => match x with
+      | [[s]] => [[10 * (s + 1)], [s + 1]]
+      | _ => [],
+    jacf := fun _ => [],
+    wr := fun x => x.map (fun v => v.map (· + 1)),
+    aliasOf := [none, some 0] }
+
+def exIncCfg (kind : Kind) (pol : Policy) : Cfg :=
+  { kind := kind, tol := 0, pol := pol, inNames := ["s"], defaults := [none], outNames := ["y", "s"],
+    dIn := [], dOut := [], runSetsJac := false }
+
+/-- `s = 1`, then (fresh array) the state `s = 2` that call reached, then (fresh array) `s = 1` again
+    (every call carries the same hash: a constant hash function). -/
+def exIncOps : List Op :=
+  [.new 1 [1], .exec [("s", 1)] 7, .new 2 [2], .exec [("s", 2)] 7, .new 3 [1], .exec [("s", 3)] 7]
+
+-- the body really writes into the caller's array (the array passed first now holds 2) and the
+-- returned `s` is that very array (address 0) ...
+example : (reach (exIncCfg .simple Policy.copy) exInc (exIncOps.take 2)).heap.getD 0 [] = [2] := by
+  decide +kernel
+example : lookupN (reach (exIncCfg .simple Policy.copy) exInc (exIncOps.take 2)).lastRet "s" =
+    some 0 := by decide +kernel
+-- ... and the entry is keyed by the value before the run (`entry_input_is_pre_run_value`)
+example : (allEntries (exIncCfg .hdf5 Policy.copy) (reach (exIncCfg .hdf5 Policy.copy) exInc
+    (exIncOps.take 2))).map (fun e => (e.1, e.2.1)) = [([[1]], [[20], [2]])] := by decide +kernel
+-- transparency: the call at the reached state runs the body, the repeated input hits
+example : outputs (exIncCfg (.memory false) Policy.copy) exInc {} exIncOps =
+    [.ok, .data [[20], [2]], .ok, .data [[30], [3]], .ok, .data [[20], [2]]] := by decide +kernel
+example : (reach (exIncCfg (.memory false) Policy.copy) exInc exIncOps).nRun = 2 := by decide +kernel
+example : (exIncCfg (.memory false) Policy.copy).cow = true ∧
+    (exIncCfg (.memory false) Policy.copy).kind.isFull = true := by decide
+
+/-- **Counter-example (inputs of the entry read after the run).** When the snapshot of the inputs is
+    taken when the entry is written (`Snap.post`), the entry of the call at `s = 1` is keyed by the
+    updated state `s = 2`: the call at `s = 2` is a wrong hit (the outputs of `s = 1` are returned,
+    `transparent_exact` fails) and the repeated input `s = 1` runs the body again
+    (`runs_at_most_once` fails), for every cache kind. -/
+example : outputs (exIncCfg .simple ⟨true, true, .post⟩) exInc {} exIncOps =
+    [.ok, .data [[20], [2]], .ok, .data [[20], [2]], .ok, .data [[20], [2]]] := by decide +kernel
+example : (outputs (exIncCfg .hdf5 ⟨true, true, .post⟩) exInc {} exIncOps).getD 3 .ok =
+    .data [[20], [2]] := by decide +kernel
+example : (reach (exIncCfg (.memory true) ⟨true, true, .post⟩) exInc
+    [.new 1 [1], .exec [("s", 1)] 7, .new 3 [1], .exec [("s", 3)] 7]).runLog = [[[1]], [[1]]] := by
+  decide +kernel
+
+/-- A body that updates a plain (not self-coupled) input in place: `k += 1`, `y = 10 a + k`. -/
+def exPlain : Disc :=
+  { run := fun x => match x with
+      | [[a], [k]] => [[10 * a + k]]
+      | _ => [],
+    jacf := fun _ => [],
+    wr := fun x => match x with
+      | [a, k] => [a, k.map (· + 1)]
+      | _ => x }
+
+def exPlainCfg (kind : Kind) (pol : Policy) : Cfg :=
+  { kind := kind, tol := 0, pol := pol, inNames := ["a", "k"], defaults := [none, none],
+    outNames := ["y"], dIn := [], dOut := [], runSetsJac := false }
+
+def exPlainOps : List Op :=
+  [.new 1 [1], .new 2 [1], .exec [("a", 1), ("k", 2)] 1, .new 3 [1], .new 4 [2],
+   .exec [("a", 3), ("k", 4)] 2]
+
+/-- **Counter-example (pinned tree: only the self-coupled inputs are copied before the run).** The
+    entry of `(a, k) = (1, 1)` is keyed by `(1, 2)`; the call at `(1, 2)` returns `11` instead of
+    `12`. With every input copied before the run (`Policy.copy`, repaired code) it returns `12`. -/
+example : (outputs (exPlainCfg .simple ⟨true, true, .coupledPre⟩) exPlain {} exPlainOps).getLast? =
+    some (.data [[11]]) := by decide +kernel
+example : (outputs (exPlainCfg .simple Policy.copy) exPlain {} exPlainOps).getLast? =
+    some (.data [[12]]) := by decide +kernel
+-- a self-coupled in-place state is handled by the pinned-tree policy
+example : outputs (exIncCfg .simple ⟨true, true, .coupledPre⟩) exInc {} exIncOps =
+    outputs (exIncCfg .simple Policy.copy) exInc {} exIncOps := by decide +kernel
 
 end GV.C05
